@@ -62,8 +62,11 @@ def random_case(rng: random.Random):
             m = rng.choice([0, 1, 3, 8, 20])
             r, q = rng.randint(1, 5), rng.randint(1, 5)
             pairs = []
+            rep = rng.random() < 0.3          # pair lists that hold the same (reference, query) pair more than once
             for _ in range(m):
                 pairs.append([r, q])
+                if rep and rng.random() < 0.25:
+                    continue
                 r += rng.choice([1, 1, 2])
                 q += rng.choice([1, 1, 0, 2])
             out.append({"q": rng.randint(1, 4), "r": rng.randint(1, 3), "pairs": pairs})
@@ -90,7 +93,7 @@ def run(ctx: Ctx):
     rng = random.Random(ctx.seed * 4099 + 19)
     ctx.rule = ("alignment sets MC_Compare enumerates (keys from 3 (query,reference) pairs, duplicate keys, pair lists "
                 "incl. empty and duplicated query labels, both flags; printed by TLC) and random sets of up to 9 "
-                "alignments with up to 20 pairs sharing part of their pairs; compared by the real AlignmentComparer as "
+                "alignments with up to 20 pairs (some lists hold the same pair more than once) sharing part of their pairs; compared by the real AlignmentComparer as "
                 "(A,B), (B,A), (A,A). non-trivial = distinct case in which both sets are non-empty and share a key")
     ctx.assumptions = ["the identity ratio (difflib.SequenceMatcher) is observed, not modelled: only its range and its "
                        "value on self-comparison are demanded; symmetry of the ratio is not (difflib does not give it)"]
